@@ -66,7 +66,7 @@ class Flow:
     propagate from arguments to destination when the callee is in the
     propagating table (tables.PROPAGATING) or when `all_calls` is set."""
 
-    def __init__(self, body, all_calls=False, extra_prop=()):
+    def __init__(self, body, all_calls=False, extra_prop=(), skip_deref_writes=False):
         self.body = body
         self.fwd = {}
         self.bwd = {}
@@ -74,6 +74,8 @@ class Flow:
         extra = set(extra_prop)
         for _b, _j, s in body.assigns():
             dst = s['lhs']['l']
+            if skip_deref_writes and s['lhs']['p'] and '*' in s['lhs']['p']:
+                continue
             for pl in rv_places(s['rv']):
                 self._edge(pl['l'], dst)
                 for e in pl['p']:
